@@ -310,8 +310,10 @@ def replay(ctx, files, cats, canary_every=5000, oneshot=False, keep=3000, timeou
         if len(ctx.samples) < 8:
             ctx.samples.append(x)
     other = {}
+    batch = {"files": list(files), "extra": list(extra), "oneshot": oneshot}
     for v in s["violations"] or []:
         if v["cat"] in cats or v["cat"] in ("timeout", "compile-timeout"):
+            v["batch"] = batch
             ctx.candidates.append(v)
         else:
             other[v["cat"]] = other.get(v["cat"], 0) + 1
@@ -325,6 +327,71 @@ def replay(ctx, files, cats, canary_every=5000, oneshot=False, keep=3000, timeou
     if ncand > len([v for v in (s["violations"] or []) if v["cat"] in cats]):
         ctx.notes.append("more candidates (%d) than kept in detail" % ncand)
     return s
+
+
+def trace_api(ctx, cats, n=600, corpus=True, timeout=1800):
+    """Layer L3: record a trace of real API calls (compliance corpus + seeded random driver beyond the generators'
+    bounds) and validate it with TLC against Trace_Api.tla. `cats`: which mismatch kinds count for this property."""
+    tr = os.path.join(ctx.scratch, "trace.%d.ndjson" % len(ctx.tlc_runs))
+    meta = tr + ".meta"
+    cmd = [ctx.jmv, "record", "-out", tr, "-meta", meta, "-seed", str(ctx.seed), "-n", str(n), "-repo", REPO,
+           "-corpus=%s" % ("true" if corpus else "false"), "-canary-every", "397"]
+    p = subprocess.run(cmd, capture_output=True, text=True, timeout=timeout)
+    if p.returncode != 0:
+        raise Machinery("jmv record failed: " + p.stderr[-1500:])
+    m = json.load(open(meta))
+    res = run_tlc(ctx, "Trace_Api", {"Dev": "{}", "TraceFile": tr}, ["SPECIFICATION Spec", "POSTCONDITION TraceAccepted", "CHECK_DEADLOCK FALSE"],
+                  name="Trace_Api_%d" % len(ctx.tlc_runs), workers=1, timeout=timeout, xmx="8g")
+    if "TraceAccepted" in res["out"] and "violated" in res["out"]:
+        raise Machinery("trace not fully consumed by Trace_Api")
+
+    def printed(tag):
+        mm = re.search(r'<<"%s", "(.*)">>' % tag, res["out"])
+        if not mm:
+            raise Machinery("Trace_Api did not print " + tag)
+        return json.loads(mm.group(1).replace('\\"', '"').replace("\\\\", "\\"))
+    bad, drift, stats = printed("BAD"), printed("DRIFT"), printed("STATS")
+    lines = open(tr).read().splitlines()
+    canary_lines = {c["line"]: c["kind"] for c in m["canaries"] or []}
+    ctx.canaries_in += len(canary_lines)
+    ctx.traces += m["handles"]
+    ctx.evaluations += m["lines"]
+    ctx.nontrivial += stats["searches"] - stats["unspec"]
+    ctx.unspec += stats["unspec"] + stats["unmodelled"]
+    for d in drift[:10]:
+        ctx.drift.append("trace line %d: %s" % (d["line"], d["why"]))
+    ncand = 0
+    for b in bad:
+        ln = b["line"]
+        if ln in canary_lines:
+            ctx.canaries_hit += 1
+            continue
+        ev = json.loads(lines[ln - 1])
+        # find the Compile event of this handle for the source text
+        text = ev.get("text")
+        if text is None:
+            for k in range(ln - 1, -1, -1):
+                e2 = json.loads(lines[k])
+                if e2["op"] == "Compile" and e2["h"] == ev["h"]:
+                    text = e2["text"]
+                    break
+        cat = {"outcome": "outcome", "docmod": "docmod", "compile-accepts": "compile-accepted", "compile-rejects": "compile-rejected"}.get(b["why"], b["why"])
+        if cat not in cats:
+            continue
+        src = bytes((-c if c < 0 else 0) for c in []).decode() if False else "".join(chr(c) if c >= 0 else "\\x%02x" % -c for c in text)
+        v = {"cat": cat, "fam": "trace", "id": ln, "src": src, "src_cps": text, "observed": json.dumps(ev.get("obs", ev.get("ok")))[:300]}
+        if ev["op"] == "Search":
+            v["doc"] = ev["doc"]
+            v["allowed"] = b["allowed"]
+        else:
+            v["allowed"] = b["allowed"]
+        ctx.candidates.append(v)
+        ncand += 1
+    ctx.log("trace validation: %d events (%d compiles, %d searches; %d unmodelled, %d unspecified), %d candidate(s), %d drift, canaries %d/%d" %
+            (m["lines"], m["handles"], stats["searches"], stats["unmodelled"], stats["unspec"], ncand, len(drift),
+             sum(1 for b in bad if b["line"] in canary_lines), len(canary_lines)))
+    if len(ctx.samples) < 8:
+        ctx.samples.append({"recorded_trace_event": json.loads(lines[min(len(lines) - 1, 5)])})
 
 
 def run_tool(ctx, tool, files, cats, extra=(), canary_every=0, timeout=3600):
@@ -430,7 +497,7 @@ def confirm(ctx, cands):
             f.write(json.dumps(rec) + "\n")
     if replayable:
         out = os.path.join(ctx.scratch, "confirm.json")
-        p = subprocess.run([ctx.jmv, "replay", "-out", out, "-keep", "100000", "-oneshot", path],
+        p = subprocess.run([ctx.jmv, "replay", "-out", out, "-keep", "100000", "-oneshot", "-contract", path],
                            capture_output=True, text=True, timeout=600)
         if p.returncode != 0:
             raise Machinery("confirmation run failed: " + p.stderr[-1500:])
@@ -438,14 +505,33 @@ def confirm(ctx, cands):
         got = {}
         for w in s["violations"] or []:
             got.setdefault(w["id"], set()).add(w["cat"])
+        alone_failed = []
         for i, v in enumerate(replayable):
             cats = got.get(i, set())
             if v["cat"] in cats or (v["cat"] == "outcome" and "panic" in cats) or \
                (v["cat"] in ("timeout", "compile-timeout") and cats):
                 confirmed.append(v)
             else:
-                ctx.notes.append("candidate did not reproduce in a fresh process: %s %r" % (v["cat"], v.get("src")))
-                ctx.unreproduced = getattr(ctx, "unreproduced", 0) + 1
+                alone_failed.append(v)
+        # A violation that needs the calls made before it (library state carried from one call to the next) does not
+        # reproduce alone: re-run its whole batch in a fresh process and look for the same case again.
+        rerun = {}
+        for v in alone_failed:
+            b = v.get("batch")
+            key = json.dumps(b, sort_keys=True) if b else None
+            if key and all(os.path.exists(f) for f in b["files"]):
+                if key not in rerun:
+                    o2 = os.path.join(ctx.scratch, "confirm.batch.%d.json" % len(rerun))
+                    cmd = [ctx.jmv, "replay", "-out", o2, "-keep", "100000"] + (["-oneshot"] if b.get("oneshot") else []) + b["extra"] + b["files"]
+                    p2 = subprocess.run(cmd, capture_output=True, text=True, timeout=3600)
+                    rerun[key] = {(w["cat"], w.get("fam"), w["id"]) for w in (json.load(open(o2)).get("violations") or [])} if p2.returncode == 0 else set()
+                if (v["cat"], v.get("fam"), v["id"]) in rerun[key]:
+                    v["needs_history"] = True
+                    v["observed"] = (v.get("observed") or "") + "  [reproduces only after the preceding calls of its batch: state is carried between calls]"
+                    confirmed.append(v)
+                    continue
+            ctx.notes.append("candidate did not reproduce in a fresh process: %s %r" % (v["cat"], v.get("src")))
+            ctx.unreproduced = getattr(ctx, "unreproduced", 0) + 1
     return confirmed + passthrough
 
 
@@ -479,7 +565,9 @@ def report(ctx, confirmed):
             continue
         path = os.path.join(ROOT, "replays", "%s-%s.json" % (ctx.prop, key))
         with open(path, "w") as f:
-            json.dump({"property": ctx.prop, "violation": v, "tier": ctx.tier, "seed": ctx.seed}, f, indent=1)
+            json.dump({"property": ctx.prop, "violation": {k: x for k, x in v.items() if k != "batch"}, "tier": ctx.tier, "seed": ctx.seed,
+                       "batch": ({"files": [os.path.basename(x) for x in v["batch"]["files"]], "note": "re-run the check to regenerate the batch"}
+                                 if v.get("needs_history") else None)}, f, indent=1)
         if v.get("tool"):
             v = dict(v, rec="(see replay file)", pools="(see replay file)")
         what = "%s expr=%r observed=%s" % (v.get("cat"), v.get("src"), (v.get("observed") or "")[:160])
